@@ -866,7 +866,7 @@ func (r *replayer) run() {
 	// outcome script: k-th call for height h
 	script := map[uint64][]bool{}
 	for _, s := range b.Steps[1:] {
-		if s.N == "Retry" || s.N == "Prune" || s.N == "ODEnd" {
+		if s.N == "Retry" || s.N == "Prune" || (s.N == "ODEnd" && !s.RF) { // the steps that make a Prune call
 			script[uint64(s.H)] = append(script[uint64(s.H)], s.OK)
 		}
 	}
